@@ -100,7 +100,7 @@ var clauseKeywords = map[string]bool{
 	"loop": true, "modifies": true, "ghost": true, "safety": true, "pure": true,
 	"pred": true, "ghostvar": true, "at": true, "trusted": true, "may_panic": true,
 	"let": true, "specfun": true, "axiom": true, "noinline": true, "end": true,
-	"entry": true,
+	"entry": true, "modset": true,
 }
 
 // EntryGhost is a ghost assignment executed when the function is entered.
@@ -159,6 +159,7 @@ func parseContracts(path string) (*Contracts, error) {
 
 	var cur *Contract
 	var curSpec *SpecFun
+	modsets := map[string][]string{}
 	mkClause := func(text string, line int) (*Clause, error) {
 		cl := &Clause{Src: text, Line: line}
 		// optional leading [C04,C18] tag and label:
@@ -252,6 +253,19 @@ func parseContracts(path string) (*Contracts, error) {
 				return nil, err
 			}
 			curSpec.Axioms = append(curSpec.Axioms, cl)
+		case "modset":
+			// modset name = target, target, ...
+			eq := strings.Index(r.text, "=")
+			if eq < 0 {
+				return nil, fmt.Errorf("%s:%d: modset name = targets", path, r.line)
+			}
+			var ts []string
+			for _, t := range strings.Split(r.text[eq+1:], ",") {
+				if t = strings.TrimSpace(t); t != "" {
+					ts = append(ts, t)
+				}
+			}
+			modsets[strings.TrimSpace(r.text[:eq])] = ts
 		case "ghostvar":
 			fs := strings.Fields(r.text)
 			if len(fs) != 2 {
@@ -280,6 +294,14 @@ func parseContracts(path string) (*Contracts, error) {
 				cur.HasModifies = true
 				for _, t := range strings.Split(r.text, ",") {
 					t = strings.TrimSpace(t)
+					if strings.HasPrefix(t, "$") {
+						ms, ok := modsets[t[1:]]
+						if !ok {
+							return nil, fmt.Errorf("%s:%d: unknown modset %s", path, r.line, t)
+						}
+						cur.Modifies = append(cur.Modifies, ms...)
+						continue
+					}
 					if t != "" && t != "nothing" {
 						cur.Modifies = append(cur.Modifies, t)
 					}
